@@ -42,6 +42,15 @@ struct OracleInner {
 	// xxh3_64(key) -> commit_seq of the most recent writer of that key.
 	recent_writes: HashMap<u64, u64>,
 
+	// Stamps that a later `publish` overwrote: fingerprint -> [(overwriting
+	// stamp, overwritten stamp)]. `rollback` needs them: a batch that stamped a
+	// key and then failed must give the key back its previous stamp. Simply
+	// removing the entry would also erase the record of the EARLIER commit it
+	// had overwritten, and a transaction that began before that earlier commit
+	// would then pass the conflict check (a lost update). Pruned together with
+	// `recent_writes`.
+	shadowed: HashMap<u64, Vec<(u64, u64)>>,
+
 	// The smallest seq still represented in the map: every commit at
 	// `seq >= kept_since` is recorded. A txn with `start_seq < kept_since`
 	// cannot be soundly validated (its window has been pruned) and gets
@@ -78,6 +87,7 @@ impl CommitOracle {
 		Self {
 			inner: Mutex::new(OracleInner {
 				recent_writes: HashMap::new(),
+				shadowed: HashMap::new(),
 				kept_since: 0,
 				commits_since_gc: 0,
 				#[cfg(debug_assertions)]
@@ -131,7 +141,12 @@ impl CommitOracle {
 		let mut g = self.inner.lock();
 		let stamp = seq_num + count - 1;
 		for k in keys {
-			g.recent_writes.insert(fp(k), stamp);
+			let fk = fp(k);
+			if let Some(old) = g.recent_writes.insert(fk, stamp) {
+				if old != stamp {
+					g.shadowed.entry(fk).or_default().push((stamp, old));
+				}
+			}
 		}
 
 		// `saturating_add` so the counter doesn't overflow if the watermark
@@ -163,6 +178,10 @@ impl CommitOracle {
 			g.commits_since_gc = 0;
 			g.kept_since = oldest_active;
 			g.recent_writes.retain(|_, v| *v >= oldest_active);
+			g.shadowed.retain(|_, v| {
+				v.retain(|(by, _)| *by >= oldest_active);
+				!v.is_empty()
+			});
 		}
 	}
 
@@ -193,12 +212,47 @@ impl CommitOracle {
 		I: IntoIterator<Item = &'a [u8]>,
 	{
 		let mut g = self.inner.lock();
+		let g = &mut *g;
 		for k in keys {
 			let fk = fp(k);
-			if let Some(&v) = g.recent_writes.get(&fk) {
-				if v == my_seq {
-					g.recent_writes.remove(&fk);
+			// The stamp this batch overwrote when it was published, if any.
+			let restored = g.shadowed.get_mut(&fk).and_then(|list| {
+				let i = list.iter().rposition(|(by, _)| *by == my_seq)?;
+				Some(list.remove(i).1)
+			});
+			match g.recent_writes.get(&fk).copied() {
+				Some(v) if v == my_seq => {
+					// We are still the most recent writer: give the key back the
+					// stamp we had overwritten (an earlier commit that conflicting
+					// transactions must still see), or forget the key if there was none.
+					match restored {
+						Some(old) => {
+							g.recent_writes.insert(fk, old);
+						}
+						None => {
+							g.recent_writes.remove(&fk);
+						}
+					}
 				}
+				Some(_) => {
+					// A later writer overwrote our stamp and remembers it as the one
+					// to restore. Hand it the stamp we had overwritten instead (or
+					// nothing), so that its own rollback does not resurrect ours.
+					if let Some(list) = g.shadowed.get_mut(&fk) {
+						match restored {
+							Some(old) => {
+								for e in list.iter_mut().filter(|(_, o)| *o == my_seq) {
+									e.1 = old;
+								}
+							}
+							None => list.retain(|(_, o)| *o != my_seq),
+						}
+					}
+				}
+				None => {}
+			}
+			if g.shadowed.get(&fk).is_some_and(|l| l.is_empty()) {
+				g.shadowed.remove(&fk);
 			}
 		}
 	}
@@ -220,6 +274,7 @@ impl CommitOracle {
 		g.kept_since = max_seq;
 		g.commits_since_gc = 0;
 		g.recent_writes.clear();
+		g.shadowed.clear();
 		// `oldest_active` can legitimately go backwards across a restore (the
 		// seq counter has been rewound). Reset the monotonicity baseline so
 		// the debug assert doesn't fire on the first post-restore GC.
